@@ -71,14 +71,30 @@ def rule_text(sections, pattern="zzzzzz", extra=None):
     return real.dump_rule(doc)
 
 
-def judge(ctx, ws, blob, sections, origin, exec_names, all_names, extra=None):
+ODD_NAMES = ["./-stage2.bin", "./--help", "my prog.bin", "./-j", "a,b|c.bin", "prog.bin.", "./@x.bin", "o'q.bin", "./-d"]
+
+
+def judge(ctx, ws, blob, sections, origin, exec_names, all_names, extra=None, fname=None):
     with ctx.ambient_log():
-        return _judge(ctx, ws, blob, sections, origin, exec_names, all_names, extra)
+        if fname is None and ctx.rng.random() < 0.12:
+            fname = ctx.rng.choice(ODD_NAMES)          # file names a shell user may have: leading dash behind ./, blanks, separators of the stream
+            ctx.event("inputs_with_unusual_file_names")
+        if fname is None:
+            return _judge(ctx, ws, blob, sections, origin, exec_names, all_names, extra)
+        cwd = os.getcwd()
+        os.chdir(ws.dir)
+        try:
+            return _judge(ctx, ws, blob, sections, origin + f" as {fname!r}", exec_names, all_names, extra, fname)
+        finally:
+            os.chdir(cwd)
 
 
-def _judge(ctx, ws, blob, sections, origin, exec_names, all_names, extra=None):
+def _judge(ctx, ws, blob, sections, origin, exec_names, all_names, extra=None, fname=None):
     """extra: further config keys (style, valid_addr_range, flags) given identically to both routes."""
-    op = ws.write("o.bin", blob)
+    if fname and fname != "libx.a":
+        with open(os.path.join(ws.dir, fname), "wb") as f:
+            f.write(blob)
+    op = fname if fname else ws.write("o.bin", blob)
     rc_full, full, _ = objd.disassemble(op)
     if rc_full != 0:
         ctx.inconc("objdump refuses the object")
@@ -96,7 +112,7 @@ def _judge(ctx, ws, blob, sections, origin, exec_names, all_names, extra=None):
     ctx.ran()
     if extra:
         ctx.event("cases_with_other_config_keys")
-    case = {"origin": origin, "sections": sections, "extra_config": extra, "object_b64": __import__("base64").b64encode(blob).decode(), "argv_observed": spawn}
+    case = {"origin": origin, "sections": sections, "extra_config": extra, "fname": fname if fname != "libx.a" else None, "object_b64": __import__("base64").b64encode(blob).decode(), "argv_observed": spawn}
     nontrivial = len(exec_names) >= 2 or sections is not None
     ctx.case((real.__name__, __import__("hashlib").sha256(blob).hexdigest(), sections), nontrivial,
              stratum=("no sections" if sections is None else "absent-only" if not (set(sections) & set(all_names)) else
@@ -207,18 +223,30 @@ def archive_stratum(ctx, ws, n):
         if not members:
             ctx.inconc("as refused a template batch")
             continue
-        if ar and rng.random() < 0.7:
+        kind = rng.choice(["archive", "archive", "thin-archive", "coff", "object"])
+        objcopy = shutil.which("objcopy")
+        fname = None
+        if ar and kind in ("archive", "thin-archive"):
             lib = ws.path("libx.a")
             if os.path.exists(lib):
                 os.remove(lib)
-            if subprocess.run([ar, "rcs", lib] + members, capture_output=True).returncode != 0:
+            flags = "rcs" if kind == "archive" else "rcsT"        # a thin archive refers to its members by path: they stay where they are
+            if subprocess.run([ar, flags, lib] + members, capture_output=True).returncode != 0:
                 ctx.inconc("ar failed")
                 continue
-            blob, origin = open(lib, "rb").read(), f"archive/{len(members)} members"
+            blob, origin = open(lib, "rb").read(), f"{kind}/{len(members)} members"
+            fname = "libx.a" if kind == "thin-archive" else None
+        elif objcopy and kind == "coff":
+            obj = ws.path("t.obj")
+            if subprocess.run([objcopy, "-O", "pe-x86-64", members[0], obj], capture_output=True).returncode != 0:
+                ctx.event("objcopy_to_coff_failed")
+                continue
+            blob, origin = open(obj, "rb").read(), "COFF object (pe-x86-64)"
         else:
             blob, origin = open(members[0], "rb").read(), "relocatable object"
         ctx.event("archive_or_object_inputs")
-        judge(ctx, ws, blob, rng.choice([None, None, [".text"]]), origin, [".text"], [".text", ".data", ".bss"])
+        ctx.event("input_kind:" + origin.split("/")[0])
+        judge(ctx, ws, blob, rng.choice([None, None, [".text"]]), origin, [".text"], [".text", ".data", ".bss"], fname=fname)
 
 
 def run_shard(ctx):
@@ -278,4 +306,4 @@ def replay(ctx, case):
         return strata.same_stat_probe(ctx, real.Workspace(), 8, binary=bool(case.get("binary")))
     install()
     import base64
-    judge(ctx, real.Workspace(), base64.b64decode(case["object_b64"]), case["sections"], "replay", ["?", "?"], [], case.get("extra_config"))
+    judge(ctx, real.Workspace(), base64.b64decode(case["object_b64"]), case["sections"], "replay", ["?", "?"], [], case.get("extra_config"), fname=case.get("fname"))
